@@ -29,7 +29,7 @@ import (
 // see the program as if the helper had never been extracted — including any
 // defect that sits inside the helper.
 
-const maxInlineRounds = 6
+const maxInlineRounds = 12
 const maxSitesPerHelper = 8
 
 type inlineSite struct {
@@ -156,6 +156,9 @@ func Normalise(opt LoadOptions, testIdents map[string]bool, loadFn func(map[stri
 			{"rename", func() (map[string][]byte, []string) { return renameRound(pkgs, overlay) }},
 			{"reshape", func() (map[string][]byte, []string) { return reshapeRound(pkgs, overlay) }},
 			{"unembed", func() (map[string][]byte, []string) { return unembedRound(pkgs, overlay) }},
+			{"table", func() (map[string][]byte, []string) { return tableRound(pkgs, overlay, &counter) }},
+			{"untype", func() (map[string][]byte, []string) { return untypeRound(pkgs, overlay) }},
+			{"unrollcounted", func() (map[string][]byte, []string) { return unrollCountedRound(pkgs, overlay) }},
 			{"exprhelper", func() (map[string][]byte, []string) { return exprHelperRound(pkgs, overlay, testIdents) }},
 			{"closure", func() (map[string][]byte, []string) { return closureRound(pkgs, overlay) }},
 			{"closurelift", func() (map[string][]byte, []string) { return liftClosureRound(pkgs, overlay) }},
@@ -183,7 +186,7 @@ func Normalise(opt LoadOptions, testIdents map[string]bool, loadFn func(map[stri
 				continue
 			}
 			e, msgs := ps.run()
-			if len(e) > 0 || ps.name == "closure" || ps.name == "inline" || ps.name == "unroll" || ps.name == "unbox" || ps.name == "unboxparams" || ps.name == "sra" || ps.name == "ptrsra" || ps.name == "unembed" {
+			if len(e) > 0 || ps.name == "closure" || ps.name == "inline" || ps.name == "unroll" || ps.name == "unrollcounted" || ps.name == "unbox" || ps.name == "unboxparams" || ps.name == "sra" || ps.name == "ptrsra" || ps.name == "unembed" || ps.name == "untype" || ps.name == "table" {
 				log = append(log, msgs...) // these passes also say why something was left alone
 			}
 			if stop {
@@ -234,6 +237,7 @@ func readSource(path string, overlay map[string][]byte) []byte {
 
 func inlineRound(pkgs []*packages.Package, overlay map[string][]byte, testIdents map[string]bool, counterp *int) (map[string][]byte, []string, bool) {
 	var log []string
+	computeSentinelErrs(pkgs)
 	// index declarations
 	decls := map[types.Object]*declInfo{}
 	for _, pkg := range pkgs {
@@ -994,17 +998,22 @@ func hasNewFunctions(repo string, overlay map[string][]byte) (bool, map[string]b
 				continue
 			}
 			fs := token.NewFileSet()
-			f, err := parser.ParseFile(fs, full, readSource(full, overlay), parser.SkipObjectResolution)
-			if err != nil {
-				continue
-			}
 			if strings.HasSuffix(name, "_test.go") {
+				// names the test file does not declare itself (its own locals, parameters and functions resolve within the file)
+				f, err := parser.ParseFile(fs, full, readSource(full, overlay), 0)
+				if err != nil {
+					continue
+				}
 				ast.Inspect(f, func(n ast.Node) bool {
-					if id, ok := n.(*ast.Ident); ok {
+					if id, ok := n.(*ast.Ident); ok && id.Obj == nil {
 						testIdents[pkgPath+"\x00"+id.Name] = true
 					}
 					return true
 				})
+				continue
+			}
+			f, err := parser.ParseFile(fs, full, readSource(full, overlay), parser.SkipObjectResolution)
+			if err != nil {
 				continue
 			}
 			ast.Inspect(f, func(n ast.Node) bool {
